@@ -115,17 +115,17 @@ static void run()
         B[i]->BuildSkip();
     }
     CBlockIndex* pindex = B[PINDEX];
-    const arith_uint256 bestwork = sym256(), minwork = sym256();
+    const arith_uint256 bestwork{2}, minwork{1};     // assumevalid is disabled in every entry: work values are irrelevant here (their role: C57)
     B[BEST]->nChainWork = bestwork; cm.m_best_header = B[BEST];
     new ((void*)&cm.m_options.minimum_chain_work) std::optional<arith_uint256>(minwork);
     uint256 avhash; if (AV >= 0) avhash = HASH(AV); else if (AV == -2) { avhash.data()[0] = 0xcc; }
     new ((void*)&cm.m_options.assumed_valid_block) std::optional<uint256>(avhash);
-    g_equiv = nondet_i64(); g_script_ok = nondet_bool();
+    g_equiv = 0; g_script_ok = true;
     // ---- chainstate
     void** slot = REF_SLOT_AFTER(cs, Chainstate, m_last_script_check_reason_logged); slot[0] = &bm; slot[1] = &cm;
-    const unsigned au = (unsigned)nondet_range(0, 2); cs.m_assumeutxo = au == 0 ? Assumeutxo::VALIDATED : au == 1 ? Assumeutxo::UNVALIDATED : Assumeutxo::INVALID;
+    const unsigned au = 0; cs.m_assumeutxo = au == 0 ? Assumeutxo::VALIDATED : au == 1 ? Assumeutxo::UNVALIDATED : Assumeutxo::INVALID;
     uint256 th; th.data()[0] = 1;
-    if (nondet_bool()) new (&cs.m_target_blockhash) std::optional<uint256>(th); else new (&cs.m_target_blockhash) std::optional<uint256>();
+    new (&cs.m_target_blockhash) std::optional<uint256>(); (void)th;
     new (&cs.m_last_script_check_reason_logged) std::optional<const char*>();
     // ---- the block: coinbase + one ordinary transaction
     CBlock& block = block_store.obj();
